@@ -1,12 +1,12 @@
 package l1
 
 import (
-	"strings"
 	"encoding/json"
 	"fmt"
 	"io"
 	"math/big"
 	"math/rand"
+	"strings"
 
 	"verifharness/absx"
 )
@@ -245,7 +245,7 @@ func (d *driver) next() M {
 		}
 		qs := []string{"Bridge", "Bridges", "NextL1Sequence", "LastFinalizedOutput", "OutputProposal", "OutputProposals", "OutputProposals", "BatchInfos", "TokenPairByL1Denom", "TokenPairByL2Denom", "TokenPairs", "Claimed", "Params"}
 		return M{"type": "Query", "q": pick(r, qs), "b": b, "idx": int64(r.Intn(6)), "denom": pick(r, []string{"d1", "d2", "d3"}),
-			"w": M{"seq": int64(1 + r.Intn(6)), "from": pick(r, users), "to": pick(r, users), "denom": pick(r, []string{"d1", "d2"}), "amt": int64(1 + r.Intn(3))},
+			"w":      M{"seq": int64(1 + r.Intn(6)), "from": pick(r, users), "to": pick(r, users), "denom": pick(r, []string{"d1", "d2"}), "amt": int64(1 + r.Intn(3))},
 			"offset": int64(r.Intn(4)), "limit": int64(pick(r, []int{0, 1, 2, 3, 10})), "reverse": r.Intn(2) == 0}
 	}
 }
